@@ -162,7 +162,12 @@ class PushPayloadOb(Obligation):
 
 def obligations(ctx, cfg):
     q = cfg['tier'] == 'quick'
-    return [ParseAndMap(), PublishStep(ctx, 1 if q else 2, 2 if q else 3, id_='C09.b'), MessageIdNew(), CreateTopic(), PushPayloadOb()]
+    from props.C14 import PullAndDispatch
+    pd = PullAndDispatch(ctx, 2)
+    pd.id = 'C09.e-push-round-payloads'
+    pd.budget = 0
+    pd.no_timers = True
+    return [ParseAndMap(), PublishStep(ctx, 1 if q else 2, 2 if q else 3, id_='C09.b'), MessageIdNew(), CreateTopic(), PushPayloadOb(), pd]
 
 
 def native_replay(ob_id, v):
